@@ -151,8 +151,6 @@ def gen_writer_case(rng):
                 s = d.decode('utf-8')
             except UnicodeDecodeError:
                 s = d.decode('latin-1')
-            if rng.random() < 0.04:
-                s = ''
             c[1] = sl.Bv(_no_marker(s).encode('utf-8'))
             c[3] = utf8()
             headers.append('#...diff:')
@@ -176,7 +174,7 @@ class Lex(Family):
             '(header names with 0-4 dots, "...\\n", "delta N\\n" with ASCII and non-ASCII digits, CR, NUL, astral and '
             'line-separator characters, JSON and diff lines); DiffX-shaped documents (1-5 valid or near-miss headers '
             'with options, bodies of JSON / diff / delta / example / "#." lines, missing final newline); UTF-8 writer '
-            'outputs of random well-ordered call sequences whose contents contain no "#." (incl. empty diffs); '
+            'outputs of random well-ordered call sequences whose contents contain no "#."; '
             'sub-lexer results are recorded from the implementation run; non-trivial = some token other than '
             'Token.Text is produced; distinct by the text')
 
@@ -255,7 +253,8 @@ class Lex(Family):
                 break
         if c['kind'] == 'writer':
             errs = [(i, v) for (i, t, v) in toks if str(t) == 'Token.Error']
-            tags = [v for (_, t, v) in toks if str(t) == 'Token.Name.Tag']
+            # JsonLexer also uses Name.Tag (for object keys, whose value starts with '"'); the DiffX rules' tags start with '#'
+            tags = [v for (_, t, v) in toks if str(t) == 'Token.Name.Tag' and v.startswith('#')]
             if errs:
                 out.append(('C20', 'headers', 'Error token %r at offset %d in a writer output' % (errs[0][1], errs[0][0])))
             elif tags != c['headers']:
